@@ -85,11 +85,12 @@ StPs(ro, names) == [i \in 1..Len(names) |-> StP(ro, names[i])]
 (* ro = role of the panel: "" (the object itself), "p1"/"p2" (panels of an *)
 (* assembly or bay), "base"/"flange" (panels of a stiffener).  sized: the  *)
 (* caller passes size=..., so get_size() is not called.                    *)
-PRebuild(ro) == <<StP(ro, "r"), StL(ro, "model"), StL(ro, "laminaprops"), StL(ro, "plyts")>>   \* :216-242 (r, alphadeg select the model)
+PRebuild(ro) == <<StP(ro, "r"), StL(ro, "model"), StP(ro, "laminaprop"), StL(ro, "laminaprops"), StP(ro, "plyt"),
+                  StL(ro, "plyts")>>   \* :216-242 (r, alphadeg select the model)
 PGetSize(ro) == <<StR(ro, "model"), StD(ro, "size")>>                                   \* :259-261
 PSize(ro, sized) == IF sized THEN <<>> ELSE PGetSize(ro)
 PGeom(ro) == <<StD(ro, "alpharad"), StL(ro, "r")>>                                      \* :376-378 (r: None -> 0.)
-PLam(ro)  == <<StR(ro, "plyts"), StR(ro, "laminaprops"),
+PLam(ro)  == <<StP(ro, "Nxx_cte"), StR(ro, "plyts"), StR(ro, "laminaprops"),
                StV(ro, "lam", {<<ro, "plyts">>, <<ro, "laminaprops">>}), StV(ro, "F", {<<ro, "lam">>})>>   \* :380-385
 PK0(ro, sized)  == PRebuild(ro) \o PSize(ro, sized) \o <<StR(ro, "model")>> \o PGeom(ro) \o PLam(ro)
                    \o <<StW(ro, "k0")>>                                                 \* calc_k0 :365-435
@@ -142,8 +143,8 @@ PanelScript(m) ==
       [] m = "stress"     -> PStress("")
       [] m = "plot"       -> PPlot("")
       \* re-definitions between evaluation calls (kind PlateRedef): a constant pre-load, and ply thickness + material
-      [] m = "redef_preload" -> <<StE("preload")>>                       \* Nxx_cte is read by calc_k0 directly (:412-422)
-      [] m = "redef_lam"  -> <<StE("lam"), StY("", "plyts"), StY("", "laminaprops"), StY("", "lam"), StY("", "F")>>
+      [] m = "redef_preload" -> <<StE("preload"), StW("", "Nxx_cte")>>                       \* Nxx_cte is read by calc_k0 directly (:412-422)
+      [] m = "redef_lam"  -> <<StE("lam"), StW("", "plyt"), StW("", "laminaprop"), StY("", "plyts"), StY("", "laminaprops"), StY("", "lam"), StY("", "F")>>
                              \* plyt / laminaprop changed: the per-ply lists are only built when empty (:234-242)
 
 KPanelMethods == {"calc_k0", "calc_kG0", "calc_kM", "calc_fext", "lb", "lb_dense", "freq",
